@@ -48,16 +48,40 @@
 (*       Location itself: the API receives a second request (GET, with a   *)
 (*       Referer) and the client gets the answer of that one, not the 3xx  *)
 (*                                                                         *)
+(* Upstream FAULTS (side "fault", action Faulty): the API is an environment *)
+(* that may misbehave - `fault` says how:                                  *)
+(*   "close-once"    the first connection is closed after the request was  *)
+(*                   read and before any answer; later ones are healthy    *)
+(*   "close-always"  every connection is closed that way                   *)
+(*   "refused"       the connection is refused (nothing ever arrives)      *)
+(*   "cut-body"      status line, headers and half of the announced body   *)
+(*                   are sent, then the connection is closed               *)
+(*   "hang"          the request is read and never answered (the proxy's   *)
+(*                   own timeout ends the call)                            *)
+(* The statement leaves open HOW OFTEN Refinery presents the request to    *)
+(* the API (0, 1 or more attempts): `up` is the sequence of ALL            *)
+(* presentations, its length is chosen nondeterministically.  What C37     *)
+(* promises about them: EVERY presentation is the client's request         *)
+(* faithfully (FaithfulPresentations), and the client receives either the  *)
+(* API's answer to that faithful request - possible only if some           *)
+(* presentation could be answered - or Refinery's own gateway error, or    *)
+(* (cut-body) the API's status and headers with a body that is a visibly   *)
+(* incomplete prefix; never an answer made for another request             *)
+(* (OwnAnswerOnly).                                                        *)
+(*                                                                         *)
 (* Beyond C37: when the API cannot be reached (`rsp.status = 0`) the       *)
 (* client must get a gateway error (502/503/504) - action Fail.            *)
 (***************************************************************************)
 EXTENDS Integers, Sequences, FiniteSets, TLC, Json
 
 CONSTANTS Faithful,      \* TRUE: the graph also contains the known deviations of the code
-          CrossResps     \* the upstream responses EVERY request is combined with (CoreResps / MidResps)
+          CrossResps,    \* the upstream responses EVERY request is combined with (CoreResps / MidResps)
+          Sides,         \* which sides of the exchange this run enumerates (subset of {"req", "rsp", "fault"})
+          FaultReqs,     \* the requests combined with every upstream fault (FaultReqsQ / FaultReqsBig)
+          FaultResps     \* the answers a healthy attempt gets in the fault vectors
 
-VARIABLES side, req, rsp, up, down, devs, act
-vars == <<side, req, rsp, up, down, devs, act>>
+VARIABLES side, req, rsp, fault, up, down, devs, act
+vars == <<side, req, rsp, fault, up, down, devs, act>>
 
 XFF == "X-Forwarded-For"
 CT  == "Content-Type"
@@ -136,6 +160,18 @@ Vectors == ({"req"} \X { r \in AllReqs : Unhandled(r) } \X CoreResps)
       \cup ({"rsp"} \X CoreReqs \X { s \in AllResps : ValidResp(s) })
       \cup ({"rsp"} \X { r \in AllReqs : Unhandled(r) } \X CrossResps)
 
+\* upstream faults
+Faults == {"close-once", "close-always", "refused", "cut-body", "hang"}
+MaxAttempts == 3
+FaultReqsQ == { r \in AllReqs : /\ r.path = "/1/markers/a%2Fb" /\ r.query = "?q=a%2Fb%20c&x=%26&y=a+b"
+                                /\ r.hs.name \in {"single", "xff"} }
+FaultReqsBig == { r \in AllReqs : /\ Unhandled(r) /\ r.path \in {"/1/markers/a%2Fb", "/1/events/c37ds"}
+                                  /\ r.query \in {"", "?q=a%2Fb%20c&x=%26&y=a+b"}
+                                  /\ r.hs.name \in {"single", "noct", "xffc"} }
+FaultRespsQ == { r \in AllResps : r.status = 201 /\ r.hs.name = "ct" /\ r.body = "json" }
+FaultRespsBig == FaultRespsQ \cup { r \in AllResps : r.status = 200 /\ r.hs.name = "ctother" /\ r.body = "binary" }
+FaultVectors == {"fault"} \X FaultReqs \X FaultResps \X Faults
+
 ---------------------------------------------------------------------------
 (* the relation *)
 
@@ -168,7 +204,8 @@ Join2(v) == IF Len(v) = 2 THEN << v[1] \o "," \o v[2] >> ELSE v
 
 Failed == [kind |-> "gateway-error", status |-> 0, body |-> "-", hdrs |-> OwnHeaders, calls |-> 0]
 
-Init == /\ \E v \in Vectors : side = v[1] /\ req = v[2] /\ rsp = v[3]
+Init == /\ \/ \E v \in Vectors : v[1] \in Sides /\ side = v[1] /\ req = v[2] /\ rsp = v[3] /\ fault = "none"
+           \/ \E v \in FaultVectors : v[1] \in Sides /\ side = v[1] /\ req = v[2] /\ rsp = v[3] /\ fault = v[4]
         /\ up = <<>> /\ down = <<>> /\ devs = {}
         /\ act = [name |-> "Init"]
 
@@ -180,7 +217,7 @@ Forward == /\ side = "req" /\ up = <<>>
                  /\ up' = << UpstreamFirstLine(req) >>
                  /\ act' = [name |-> "Forward", dev |-> "xff-later-lines-dropped"]
                  /\ devs' = devs \cup {"xff-later-lines-dropped"}
-           /\ UNCHANGED <<side, req, rsp, down>>
+           /\ UNCHANGED <<side, req, rsp, fault, down>>
 
 Return == /\ side = "rsp" /\ down = <<>> /\ rsp.status # 0
           /\ \/ /\ down' = << Client(rsp) >>
@@ -198,30 +235,48 @@ Return == /\ side = "rsp" /\ down = <<>> /\ rsp.status # 0
                 /\ down' = << [Client(TargetResp) EXCEPT !.calls = 2] >>
                 /\ act' = [name |-> "Return", dev |-> "redirect-followed"]
                 /\ devs' = devs \cup {"redirect-followed"}
-          /\ UNCHANGED <<side, req, rsp, up>>
+          /\ UNCHANGED <<side, req, rsp, fault, up>>
 
 \* beyond C37: the API cannot be reached
 Fail == /\ side = "rsp" /\ down = <<>> /\ rsp.status = 0
         /\ down' = << Failed >>
         /\ act' = [name |-> "Fail"]
-        /\ UNCHANGED <<side, req, rsp, up, devs>>
+        /\ UNCHANGED <<side, req, rsp, fault, up, devs>>
 
-Next == Forward \/ Return \/ Fail
+\* upstream faults.  n = how many times the request was presented to the API (left open by the
+\* statement); every presentation is Upstream(req).  The outcomes the client may see:
+Presentations(n) == [i \in 1..n |-> Upstream(req)]
+Answered(n) == [Client(rsp) EXCEPT !.calls = n]
+CutShort(n) == [kind |-> "relayed-cut", status |-> RealStatus(rsp.status), body |-> "cut", hdrs |-> SentHdrs(rsp) @@ OwnHeaders, calls |-> n]
+FaultOutcomes ==
+  CASE fault = "close-once"   -> { <<n, Failed>> : n \in 0..1 } \cup { <<n, Answered(n)>> : n \in 2..MaxAttempts }
+    [] fault = "close-always" -> { <<n, Failed>> : n \in 0..MaxAttempts }
+    [] fault = "refused"      -> { <<0, Failed>> }
+    [] fault = "hang"         -> { <<n, Failed>> : n \in 0..MaxAttempts }
+    [] fault = "cut-body"     -> { <<n, Failed>> : n \in 0..MaxAttempts } \cup { <<n, CutShort(n)>> : n \in 1..MaxAttempts }
+    [] OTHER                  -> {}
+Faulty == /\ side = "fault" /\ down = <<>>
+          /\ \E o \in FaultOutcomes : up' = Presentations(o[1]) /\ down' = << o[2] >>
+          /\ act' = [name |-> "Faulty"]
+          /\ UNCHANGED <<side, req, rsp, fault, devs>>
+
+Next == Forward \/ Return \/ Fail \/ Faulty
 Spec == Init /\ [][Next]_vars
 
 ---------------------------------------------------------------------------
 U == up[1]
 D == down[1]
 
-TypeOK == /\ side \in {"req", "rsp"} /\ req \in AllReqs /\ rsp \in AllResps
-          /\ Len(up) <= 1 /\ Len(down) <= 1
-          /\ up # <<>> => side = "req"
-          /\ down # <<>> => side = "rsp"
+TypeOK == /\ side \in {"req", "rsp", "fault"} /\ req \in AllReqs /\ rsp \in AllResps
+          /\ fault \in Faults \cup {"none"} /\ (fault # "none" <=> side = "fault")
+          /\ Len(up) <= (IF side = "fault" THEN MaxAttempts ELSE 1) /\ Len(down) <= 1
+          /\ up # <<>> => side \in {"req", "fault"}
+          /\ down # <<>> => side \in {"rsp", "fault"}
           /\ devs \subseteq {"xff-later-lines-dropped", "default-content-type", "set-cookie-joined", "redirect-followed"}
 
 \* C37, request side: same method, path, query, body and header values, plus X-Forwarded-For
 RelayedUnchanged ==
-  up # <<>> /\ "xff-later-lines-dropped" \notin devs =>
+  up # <<>> /\ side = "req" /\ "xff-later-lines-dropped" \notin devs =>
      /\ U.method = req.method /\ U.target = req.path \o req.query /\ U.body = req.body
      /\ DOMAIN U.hdrs = DOMAIN req.hs.h \cup {XFF}
      /\ \A n \in DOMAIN req.hs.h \ {XFF} : U.hdrs[n] = req.hs.h[n]
@@ -236,7 +291,7 @@ XffDeviationShape ==
 
 \* C37, response side: status, headers and body unchanged
 ReturnedUnchanged ==
-  down # <<>> /\ rsp.status # 0 /\ devs \cap {"default-content-type", "set-cookie-joined", "redirect-followed"} = {} =>
+  down # <<>> /\ side = "rsp" /\ rsp.status # 0 /\ devs \cap {"default-content-type", "set-cookie-joined", "redirect-followed"} = {} =>
      /\ D.kind = "relayed" /\ D.status = RealStatus(rsp.status) /\ D.body = rsp.body /\ D.calls = 1
      /\ \A n \in DOMAIN SentHdrs(rsp) : D.hdrs[n] = SentHdrs(rsp)[n]
      /\ DOMAIN D.hdrs \ DOMAIN SentHdrs(rsp) \subseteq DOMAIN OwnHeaders
@@ -245,10 +300,35 @@ ReturnedUnchanged ==
 UpstreamHeaderWins == down # <<>> /\ ACAO \in DOMAIN rsp.hs.h /\ "redirect-followed" \notin devs /\ rsp.status # 0 => D.hdrs[ACAO] = rsp.hs.h[ACAO]
 
 \* exactly one request reaches the API per client request
-OneCall == down # <<>> /\ rsp.status # 0 /\ "redirect-followed" \notin devs => D.calls = 1
+OneCall == down # <<>> /\ side = "rsp" /\ rsp.status # 0 /\ "redirect-followed" \notin devs => D.calls = 1
 
 \* an unreachable API is reported as a gateway error, not as a success
 FailureIsReported == down # <<>> /\ rsp.status = 0 => D.kind = "gateway-error"
+
+\* C37 under upstream faults: whatever arrives at the API, on ANY attempt, is the client's request
+\* faithfully - method, path (raw), query, header values (plus X-Forwarded-For) and the complete body
+FaithfulPresentations ==
+  side = "fault" => \A i \in 1..Len(up) :
+     /\ up[i].method = req.method /\ up[i].target = req.path \o req.query /\ up[i].body = req.body
+     /\ DOMAIN up[i].hdrs = DOMAIN req.hs.h \cup {XFF}
+     /\ \A n \in DOMAIN req.hs.h \ {XFF} : up[i].hdrs[n] = req.hs.h[n]
+     /\ up[i].hdrs[XFF] = Elems(req.hs.h, XFF) \o <<"CLIENT">>
+
+\* which presentation (1, 2, ...) the faulty API is able to answer completely
+Answerable(i) == fault = "close-once" /\ i >= 2
+\* C37 under upstream faults: the client gets the API's answer to its own faithful request (only
+\* possible if one of the presentations could be answered), or Refinery's own error, or - when the
+\* API's answer broke off - that answer's status and headers with a visibly incomplete body
+OwnAnswerOnly ==
+  side = "fault" /\ down # <<>> =>
+     \/ D.kind = "gateway-error"
+     \/ /\ D.kind = "relayed" /\ \E i \in 1..Len(up) : Answerable(i)
+        /\ D.status = RealStatus(rsp.status) /\ D.body = rsp.body
+        /\ \A n \in DOMAIN SentHdrs(rsp) : D.hdrs[n] = SentHdrs(rsp)[n]
+        /\ DOMAIN D.hdrs \ DOMAIN SentHdrs(rsp) \subseteq DOMAIN OwnHeaders
+     \/ /\ D.kind = "relayed-cut" /\ fault = "cut-body" /\ Len(up) >= 1
+        /\ D.status = RealStatus(rsp.status)
+        /\ \A n \in DOMAIN SentHdrs(rsp) : D.hdrs[n] = SentHdrs(rsp)[n]
 
 \* deviations appear only when asked for
 DevsOnlyWhenFaithful == devs # {} => Faithful
@@ -257,11 +337,11 @@ DevsOnlyWhenFaithful == devs # {} => Faithful
 NoDeviation == devs = {}
 
 Hid == [devSet |-> devs]
-Abs == [side |-> side,
+Abs == [side |-> side, fault |-> fault,
         req |-> [method |-> req.method, path |-> req.path, query |-> req.query, hdrset |-> req.hs.name, wire |-> req.hs.wire, hdrs |-> req.hs.h, body |-> req.body],
         rsp |-> [status |-> rsp.status, hdrset |-> rsp.hs.name, hdrs |-> rsp.hs.h, body |-> rsp.body],
         up |-> up, down |-> down]
 \* compact dump: full state = projection + hidden part
 Dump == PrintT(ToJson([fabs |-> Abs, fhid |-> Hid, fa |-> act.name, act |-> act', tabs |-> Abs', thid |-> Hid']))
-View == <<side, req, rsp, up, down, devs>>
+View == <<side, req, rsp, fault, up, down, devs>>
 =============================================================================
